@@ -561,9 +561,20 @@ func genNsec3Case(r *vlib.R, emit func(string)) int {
 		if r.Chance(1, 10) && len(set) > 0 {
 			set = append(set, vlib.Pick(r, set)) // exact repeat
 		}
-		// strangers
-		if r.Chance(1, 4) && len(ring) > 0 {
+		// strangers: a record that is not this chain's.  Half of them reuse a
+		// genuine record (same owner hash: the conflict check sees them too), half
+		// sit at an owner hash of their own (only the tuple / class / zone checks can
+		// refuse those).
+		if r.Chance(1, 3) && len(ring) > 0 {
 			x := vlib.Pick(r, ring)
+			if r.Bool() {
+				fake := z.apex.child(fmt.Sprintf("fake%d", r.Intn(1000)))
+				x.ownerHash = hashOf(fake, z3.salt, z3.iter)
+				x.ownerLab = strings.ToLower(b32.EncodeToString(x.ownerHash))
+				x.next = hashOf(fake.child("n"), z3.salt, z3.iter)
+				x.nextText = b32.EncodeToString(x.next)
+				x.types = []uint16{tA, tRRSIG}
+			}
 			switch r.Intn(12) {
 			case 0:
 				x.iter = z3.iter + 1
